@@ -322,20 +322,35 @@ def always_pop(repo: Repo, rep):
             path_from(cfg, cfg.entry, [cfg.ret, cfg.exc], blocked_nodes=leaves) or "",
             construct="leave",
         )
-    sus = [n for n in cfg.live for c in node_calls(n) if isinstance(c.func, ast.Attribute) and c.func.attr == "suspend_global_capture"]
-    res = [n for n in cfg.live for c in node_calls(n) if isinstance(c.func, ast.Attribute) and c.func.attr == "resume_global_capture"]
-    rep.floor("R-ALWAYS-POP", "suspend_global_capture sites", len(sus), 1)
-    for s in sus:
-        if res and must_reach(cfg, s, res, [cfg.ret, cfg.exc], skip_labels=()):
-            # the suspend call's own exceptional edge does not need a resume
-            rep.ok("R-ALWAYS-POP", f, s.ast, "capture resumed on every exit")
-        else:
-            starts = [b for b, l in s.succ if l != "exc"]
-            r = reach(cfg, starts, blocked_nodes=res)
-            if cfg.ret in r or cfg.exc in r:
-                rep.violation("R-ALWAYS-POP", f, s.ast, "global capture is suspended and an exit (normal or exceptional) does not resume it", construct="capture")
+    # wherever the capture is suspended (the hook itself, or a context manager it uses): resumed on every exit of that function -
+    # for a @contextmanager that includes the exception thrown in at its yield
+    n_sus = 0
+    for h in repo.pkg_funcs():
+        if not any(isinstance(c, ast.Call) and isinstance(c.func, ast.Attribute) and c.func.attr == "suspend_global_capture" for c in body_nodes(h.node)):
+            continue
+        hcfg = cfg if h.key == f.key else cfg_of(h, all_raise=True)
+        sus = [n for n in hcfg.live for c in node_calls(n) if isinstance(c.func, ast.Attribute) and c.func.attr == "suspend_global_capture"]
+        res = [n for n in hcfg.live for c in node_calls(n) if isinstance(c.func, ast.Attribute) and c.func.attr == "resume_global_capture"]
+        n_sus += len(sus)
+        for s_ in sus:
+            if res and must_reach(hcfg, s_, res, [hcfg.ret, hcfg.exc], skip_labels=()):
+                # the suspend call's own exceptional edge does not need a resume
+                rep.ok("R-ALWAYS-POP", h, s_.ast, "capture resumed on every exit")
             else:
-                rep.ok("R-ALWAYS-POP", f, s.ast, "capture resumed on every exit")
+                starts = [b for b, l in s_.succ if l != "exc"]
+                r = reach(hcfg, starts, blocked_nodes=res)
+                if hcfg.ret in r or hcfg.exc in r:
+                    rep.violation("R-ALWAYS-POP", h, s_.ast, "global capture is suspended and an exit (normal or exceptional) does not resume it", construct="capture")
+                else:
+                    rep.ok("R-ALWAYS-POP", h, s_.ast, "capture resumed on every exit")
+        if h.key != f.key:
+            # a helper that suspends may only be used as a context manager
+            if "contextmanager" not in " ".join(h.decorators):
+                rep.violation("R-ALWAYS-POP", h, h.node, f"{h.qualname} suspends the global capture but is not a context manager: its caller has to pair it with a resume on every exit, which is not checked", construct="capture-helper")
+            for cf, c, how in cg.callers.get(h.key, []):
+                if not any(isinstance(a, (ast.With, ast.AsyncWith)) and any(i.context_expr is c for i in a.items) for a in ancestors(c)):
+                    rep.violation("R-ALWAYS-POP", cf, c, f"{h.qualname} is called outside a with statement: the capture stays suspended", construct="capture-helper-call")
+    rep.floor("R-ALWAYS-POP", "suspend_global_capture sites", n_sus, 1)
     g = repo.func("_global_state.py::snapshot_env")
     gcfg = cfg_of(g, all_raise=True)
     ent = [n for n, c in _calls_of(g, gcfg, cg, "_global_state.py::enter_snapshot_context")]
